@@ -206,6 +206,7 @@ func flows() []flow {
 		rotateFlow("rotate-node-nodeid", true),
 		genFlow("gen-certs-keyid", false),
 		genFlow("gen-certs-nodeid", true),
+		genAfterReplacementFlow(),
 		{"node-new-credentials", func(w *world, st *harness.MemStore) {
 			for _, k := range st.Keys() {
 				f := strings.SplitN(k, "/", 2)
@@ -384,8 +385,34 @@ func genFlow(name string, byNode bool) flow {
 			req.NodeId = "X"
 		}
 		resp, err := nodetls.GenerateServerCertificates(harness.Ctx, st, req)
-		return outcome{Err: err, Handed: resp != nil}
+		o := outcome{Err: err, Handed: resp != nil}
+		if err == nil && resp != nil {
+			// the certificates handed out must be issued by the roots storage holds now
+			roots, lerr := types.LoadRootCertificates(harness.Ctx, st.Clone())
+			if lerr != nil || len(resp.CertificateBundles) != 2 ||
+				!bytes.Equal(resp.CertificateBundles[0].CaCertificateDer, roots.Current.CertificateDer) || !bytes.Equal(resp.CertificateBundles[1].CaCertificateDer, roots.Next.CertificateDer) {
+				o.Durable = "server certificates were issued by roots that are not the ones in storage"
+			}
+		}
+		return o
 	}}
+}
+
+// genAfterReplacementFlow: certificates were generated before, then the roots
+// were reinitialized; a later generation (with faults) must never fall back on
+// what an earlier call saw.
+func genAfterReplacementFlow() flow {
+	f := genFlow("gen-certs-after-roots-replaced", false)
+	inner := f.Run
+	f.Prep = func(w *world, st *harness.MemStore) {
+		if o := inner(w, st); o.Err != nil {
+			panic(o.Err)
+		}
+		if _, err := rotation.RotateRootCertificates(harness.Ctx, st, nodeenrollment.WithReinitializeRoots(true)); err != nil {
+			panic(err)
+		}
+	}
+	return f
 }
 
 type kase struct {
@@ -571,7 +598,7 @@ func init() {
 	engine.Register(&engine.CheckDef{
 		ID:    "C13",
 		Level: "fault_enumeration",
-		Rule: "21 flows (authorize; fetch: authorized / unauthorized / token / wrapper / re-wrapped; token creation; root rotation: empty / no-op / promote / reinit; node rotation by key id / node id; server certificates by key id / node id; node-side NewNodeCredentials and HandleFetchNodeCredentialsResponse; a repeated wrapper fetch on a store-once storage (both duplicate-error forms); a first-time Dial through the real listener with faults in the node's resp. the server's storage) x every storage call position of the fault-free run x {generic error, ErrNotFound, context.Canceled}; thorough adds every pair of positions x 9 kind pairs; " +
+		Rule: "22 flows (authorize; fetch: authorized / unauthorized / token / wrapper / re-wrapped; token creation; root rotation: empty / no-op / promote / reinit; node rotation by key id / node id; server certificates by key id / node id / after the roots were replaced; node-side NewNodeCredentials and HandleFetchNodeCredentialsResponse; a repeated wrapper fetch on a store-once storage (both duplicate-error forms); a first-time Dial through the real listener with faults in the node's resp. the server's storage) x every storage call position of the fault-free run x {generic error, ErrNotFound, context.Canceled}; thorough adds every pair of positions x 9 kind pairs; " +
 			"distinct_nontrivial counts fault placements (distinct by construction) in which every injected fault was actually reached by the call",
 		Assumptions: []string{"a failing storage call has no effect (no torn writes: the Storage interface is message-granular)", "a fault that turns a refusal into a durable success is not judged here (the property allows a result that is fully reflected in storage)"},
 		Shards:      func(c *engine.Ctx) int { return 8 },
